@@ -37,6 +37,7 @@ Speed: Reparsable.get_params (pure Cartesian parsing, not under check) is memois
 UT_DEBUG=1 prints every observation on stderr).
 """
 import asyncio
+import atexit
 import contextlib
 import itertools
 import json
@@ -62,6 +63,7 @@ from avocado_i2n.cartgraph import TestGraph  # noqa: E402
 
 AVAILABLE_VMS = {"vm1": "only CentOS\n", "vm2": "only Win10\n", "vm3": "only Ubuntu\n"}
 TMPDIR = tempfile.mkdtemp(prefix="update_tool_")
+atexit.register(shutil.rmtree, TMPDIR, ignore_errors=True)
 
 # ---------------------------------------------------------------- speed-up: memoise pure Cartesian parsing
 _orig_get_params = param.Reparsable.get_params
